@@ -757,6 +757,17 @@ func runHelpers(cs HCase) ev.Outcome {
 		if len(points) != b.N {
 			return ev.Fail("cohelpers/count", "%s: BuildCOChoices returned %d points", ctx, len(points))
 		}
+		// The receiver reuses its choice buffer (for the next batch of a
+		// pipeline): the bundle is a value of its own - it is what
+		// sha2pc persists between rounds - and must not change with it.
+		choice := append([]bool(nil), bits...)
+		if i%2 == 1 || b.N > 64 {
+			for j := range bits {
+				bits[j] = !bits[j]
+			}
+			cl.add("choice-buffer-reused-after-build")
+		}
+		bits = choice
 		cts, err := ot.EncryptCOCiphertexts(curve, setup, points, wires)
 		if err != nil {
 			return ev.Fail("cohelpers/encrypt-error", "%s: EncryptCOCiphertexts: %v", ctx, err)
